@@ -505,7 +505,32 @@ func c13MethodsOfRequest(v ssa.Value) (methods []string, ok bool) {
 		case "net/http.NewRequest":
 			m = call.Call.Args[0]
 		default:
-			return nil, false
+			// a request factory of the module: the methods of the requests it returns
+			F := StaticCallee(call)
+			if F == nil || !inModule(F) || len(F.Blocks) == 0 || F == call.Parent() {
+				return nil, false
+			}
+			some := false
+			for _, a := range RetAtoms(F, 0) {
+				if isNilConst(a.Val) {
+					continue
+				}
+				ms, ok := c13MethodsOfRequest(a.Val)
+				if !ok {
+					return nil, false
+				}
+				some = true
+				for _, x := range ms {
+					if !seen[x] {
+						seen[x] = true
+						methods = append(methods, x)
+					}
+				}
+			}
+			if !some {
+				return nil, false
+			}
+			continue
 		}
 		s, isConst := constString(m)
 		if !isConst {
@@ -617,6 +642,27 @@ type c13Fact struct {
 	Use func(fn *ssa.Function, resp map[ssa.Value]bool, bind map[ssa.Value]int64) (edges []Edge, direct []ssa.Value)
 	// Instrs (optional): instructions whose execution establishes the fact (e.g. a store).
 	Instrs func(fn *ssa.Function, vals map[ssa.Value]bool) []ssa.Instruction
+	// Aux (optional): a second value set the fact relates vals to (e.g. the descriptor sizes a request length is
+	// compared with).  When a helper receives such a value as an argument, the parameter joins the set inside the
+	// helper; Use/Instrs read the set of the function under analysis from c13AuxOf(fn).
+	Aux func(fn *ssa.Function) map[ssa.Value]bool
+}
+
+// c13AuxInherited: per function, the parameters that received an Aux value at the call under analysis.
+var c13AuxInherited = map[*ssa.Function]map[ssa.Value]bool{}
+
+// c13AuxOf: the Aux set of fact in fn: its own plus what the call under analysis handed in.
+func c13AuxOf(fact c13Fact, fn *ssa.Function) map[ssa.Value]bool {
+	out := map[ssa.Value]bool{}
+	if fact.Aux != nil {
+		for v := range fact.Aux(fn) {
+			out[v] = true
+		}
+	}
+	for v := range c13AuxInherited[fn] {
+		out[v] = true
+	}
+	return out
 }
 
 var c13SummaryMemo = map[string]bool{}
@@ -676,6 +722,26 @@ func c13FactCutBound(fn *ssa.Function, resp map[ssa.Value]bool, bind map[ssa.Val
 		if h == fn {
 			continue
 		}
+		if fact.Aux != nil {
+			auxHere := c13AuxOf(fact, fn)
+			inh := map[ssa.Value]bool{}
+			for i, a := range call.Call.Args {
+				if auxHere[a] && i < len(h.Params) {
+					for x := range Aliases(h.Params[i]) {
+						inh[x] = true
+					}
+				}
+			}
+			prev, had := c13AuxInherited[h]
+			c13AuxInherited[h] = inh
+			defer func(h *ssa.Function, prev map[ssa.Value]bool, had bool) {
+				if had {
+					c13AuxInherited[h] = prev
+				} else {
+					delete(c13AuxInherited, h)
+				}
+			}(h, prev, had)
+		}
 		if rs := h.Signature.Results(); rs.Len() == 1 && types.Identical(rs.At(0).Type(), types.Typ[types.Bool]) {
 			// predicate helper: its true edge counts when every return that may be true passes the fact
 			if c13BoolHelperEstablishes(h, idxs[k], bind, fact, depth-1) {
@@ -729,6 +795,11 @@ func c13HelperEstablishesBound(h *ssa.Function, idx int, bind map[ssa.Value]int6
 	for i, p := range h.Params {
 		if v, ok := bind[p]; ok {
 			bk += fmt.Sprintf("%d=%d,", i, v)
+		}
+	}
+	for i, p := range h.Params {
+		if c13AuxInherited[h][p] {
+			bk += fmt.Sprintf("aux%d,", i)
 		}
 	}
 	key := fmt.Sprintf("%p|%d|%s|%d|%s", h, idx, fact.ID, depth, bk)
@@ -1511,21 +1582,29 @@ func c13FrameClass(fr *c13Frame, base func(fn *ssa.Function, sets []map[ssa.Valu
 				}
 			}
 		}
-		cf := c13NewCondFacts(kf.Fn, c13FrameClass(kf, base, setsOf, kelem, depth-1))
-		ht, hf := true, true
-		for _, a := range RetAtoms(kf.Fn, 0) {
-			for _, truth := range []bool{true, false} {
-				if cf.Implies(a.Val, truth, 0) || !c13AtomReach(kf.Fn.Blocks[0], 0, a, newCut().Edges(cf.list()...)) {
-					continue
-				}
-				if truth {
-					ht = false
-				} else {
-					hf = false
-				}
-			}
-		}
+		ht, hf := c13PredicateImplies(kf, base, setsOf, kelem, depth-1)
 		return t || ht, f || hf
 	}
 	return class
+}
+
+// c13PredicateImplies: for the predicate activation kf (element values kelem):
+// does its returning true (ht) / false (hf) imply the fact — every return that
+// may have that truth value implies it by value or lies behind the fact's edges.
+func c13PredicateImplies(kf *c13Frame, base func(fn *ssa.Function, sets []map[ssa.Value]bool) c13CondClass, setsOf func(fr *c13Frame, elem map[ssa.Value]bool) []map[ssa.Value]bool, kelem map[ssa.Value]bool, depth int) (ht, hf bool) {
+	cf := c13NewCondFacts(kf.Fn, c13FrameClass(kf, base, setsOf, kelem, depth))
+	ht, hf = true, true
+	for _, a := range RetAtoms(kf.Fn, 0) {
+		for _, truth := range []bool{true, false} {
+			if cf.Implies(a.Val, truth, 0) || !c13AtomReach(kf.Fn.Blocks[0], 0, a, newCut().Edges(cf.list()...)) {
+				continue
+			}
+			if truth {
+				ht = false
+			} else {
+				hf = false
+			}
+		}
+	}
+	return ht, hf
 }
